@@ -1,6 +1,6 @@
 """C42 - Exports contain exactly the exported tree.
 
-Input enumeration: every parent-closed tree made of <= k (2 quick / 4 thorough) entries of a
+Input enumeration: every parent-closed tree made of <= k (3 quick / 4 thorough) entries of a
 15-entry namespace with unusual names (empty and binary contents, space, non-ASCII, leading
 dash, executable, nested and empty directories, a sibling whose name has the sub-directory
 as a prefix, symlinks at top level and inside the sub-directory, `.bzrignore`, a file
@@ -389,7 +389,7 @@ def _work(chunk):
 
 
 def run(ctx):
-    k = ctx.q(2, 4)
+    k = ctx.q(3, 4)
     formats = ctx.q(FORMATS_Q, FORMATS_T)
     roots = ctx.q((None, "r", ""), (None, "r", "", "r/s"))
     ts = trees(k)
